@@ -2,22 +2,28 @@
 package main
 
 import (
-	"strings"
+	"encoding/json"
 	"fmt"
+	"math"
+	"os"
+	"strconv"
+	"strings"
 
 	"github.com/pentops/j5/internal/zzverif/gbridge"
 	"github.com/pentops/j5/internal/zzverif/gj5s"
 	"github.com/pentops/j5/internal/zzverif/gpb"
 	"github.com/pentops/j5/internal/zzverif/vk"
 	"github.com/pentops/j5/lib/j5codec"
+	"github.com/pentops/j5/lib/j5reflect"
 	"google.golang.org/protobuf/encoding/prototext"
+	"google.golang.org/protobuf/reflect/protoreflect"
 	"google.golang.org/protobuf/types/dynamicpb"
 )
 
 func main() {
 	vk.Main(&vk.Check{
 		ID:   "C01",
-		Rule: "schemas: every (field kind x label x context) single-field message (S1) and every ordered pair of top-level fields over a 14-kind reduced alphabet (S2), built as raw descriptors; for each schema every message in the product of the per-field boundary value alphabets; a case = (schema, message); distinct by (schema id, message text); non-trivial = message with at least one populated field",
+		Rule: "schemas: every (field kind x label x context) single-field message (S1) and every ordered pair of top-level fields over a 14-kind reduced alphabet (S2), built as raw descriptors; for each schema every message in the product of the per-field boundary value alphabets; a case = (schema, message); distinct by (schema id, message text); non-trivial = message with at least one populated field; thorough adds every finite float32 value (2^32 bit patterns in 4096 blocks, each value one evaluation) through the encoder's formatting and the decoder's scalar conversion",
 		Assumptions: []string{
 			"values outside the boundary alphabets, more than two top-level fields and nesting deeper than two levels are not covered",
 			"representability is taken from the property: finite floats, years 0001-9999, defined enum numbers, valid UTF-8, well-formed decimals; j5 Any carries j5_json only (plain codec), google.protobuf.Any is round-tripped through a codec built WithProtoToAny and a private resolver",
@@ -54,6 +60,11 @@ func mk(m *gpb.Message, k gpb.Kind, seen map[*gpb.Message]bool) bool {
 }
 
 func run(r *vk.Runner) {
+	defer func() {
+		if !r.Quick() || os.Getenv("C01_FLOAT32_ALL") != "" {
+			float32AllValues(r)
+		}
+	}()
 	cases := gpb.SingleFieldCases()
 	cases = append(cases, gpb.PairCases()...)
 	gj5s.Silence()
@@ -119,6 +130,99 @@ func run(r *vk.Runner) {
 				}
 			})
 		}
+	}
+}
+
+// float32AllValues (thorough): every one of the 2^32 float32 bit patterns that is a finite number is
+// written the way the encoder writes it and read back through the reflection layer's scalar setter (the
+// decoder's own conversion); blocks of 2^20 patterns are one case. The full codec costs ~150 us per
+// message, so it is run on one value in 4096 only, where it must agree with the fast path (text and
+// decoded bits): that keeps the fast path bound to the implementation.
+func float32AllValues(r *vk.Runner) {
+	f := gpb.F("f_val", 1, gpb.KFloat, gpb.Single)
+	root := &gpb.Message{Name: "T", Fields: []*gpb.Field{f}}
+	s := &gpb.Schema{Messages: []*gpb.Message{root}, Root: root}
+	if err := s.Build(); err != nil {
+		panic(err)
+	}
+	md := s.Desc(root)
+	fd := md.Fields().ByName("f_val")
+	r.Family("float32-all-values")
+	const block = 1 << 20
+	var codec *j5codec.Codec
+	for b := uint64(0); b < (1<<32)/block; b++ {
+		b := b
+		if !r.Mine() {
+			r.SkipCase()
+			continue
+		}
+		if codec == nil {
+			codec = j5codec.NewCodec(j5codec.WithResolver(gpb.Resolver{S: s}))
+		}
+		r.Do(fmt.Sprintf("float32-block:%d", b), func(t *vk.T) {
+			t.Coord("kind=float|label=single|context=all-values")
+			t.Nontrivial()
+			n := int64(0)
+			msg := dynamicpb.NewMessage(md)
+			rootSet, err := j5reflect.New().NewRoot(msg)
+			if err != nil {
+				panic(err)
+			}
+			prop, err := rootSet.GetProperty("fVal")
+			if err != nil {
+				panic(err)
+			}
+			field, err := prop.CreateField()
+			if err != nil {
+				panic(err)
+			}
+			scalar, ok := field.AsScalar()
+			if !ok {
+				panic("fVal is not a scalar")
+			}
+			buf := make([]byte, 0, 32)
+			for i := b * block; i < (b+1)*block; i++ {
+				v := math.Float32frombits(uint32(i))
+				if v != v || math.IsInf(float64(v), 0) {
+					continue
+				}
+				n++
+				buf = strconv.AppendFloat(buf[:0], float64(v), 'g', -1, 32) // encoder.addFloat
+				if err := scalar.SetGoValue(json.Number(buf)); err != nil {
+					t.Violation("decode-of-own-output-fails|kind=float|"+vk.ErrTail(err), fmt.Sprintf("the scalar setter rejects %s (float32 bits %d): %v", buf, i, err), i, nil, string(buf))
+					return
+				}
+				got := float32(msg.Get(fd).Float())
+				if math.Float32bits(got) != uint32(i) && !(v == 0 && got == 0) {
+					t.Violation("roundtrip-differs|kind=float|label=single", fmt.Sprintf("float32 bits %d (%v) is written as %s and read back as bits %d (%v)", i, v, buf, math.Float32bits(got), got), i, v, got)
+					return
+				}
+				if i%4096 == 1365 { // conformance of the fast path with the codec
+					m2 := dynamicpb.NewMessage(md)
+					m2.Set(fd, protoreflect.ValueOfFloat32(v))
+					out, err := codec.ProtoToJSON(m2)
+					if err != nil {
+						t.Violation("encode-fails|kind=float|"+vk.ErrTail(err), fmt.Sprintf("ProtoToJSON fails on float32 bits %d (%v): %v", i, v, err), i, nil, err.Error())
+						return
+					}
+					if want := `{"fVal":` + string(buf) + `}`; string(out) != want && v != 0 {
+						panic(fmt.Sprintf("harness: the codec writes %s for float32 bits %d, the fast path assumes %s", out, i, want))
+					}
+					back := dynamicpb.NewMessage(md)
+					if err := codec.JSONToProto(out, back); err != nil {
+						t.Violation("decode-of-own-output-fails|kind=float|"+vk.ErrTail(err), fmt.Sprintf("JSONToProto rejects %s: %v", out, err), i, nil, string(out))
+						return
+					}
+					if g2 := float32(back.Get(fd).Float()); math.Float32bits(g2) != math.Float32bits(got) {
+						panic(fmt.Sprintf("harness: the codec decodes %s to bits %d, the scalar setter to bits %d", out, math.Float32bits(g2), math.Float32bits(got)))
+					}
+				}
+			}
+			t.Count(n, 0, 2*n) // evaluations and transitions are counted, the values are not kept as keys
+			if b == 1000 {
+				t.Sample(fmt.Sprintf("block %d: %d finite values", b, n))
+			}
+		})
 	}
 }
 
